@@ -101,14 +101,7 @@ def c14(tier):
             continue
         traces.append({"id": rq["id"], "events": a["events"]})
         nev += len(a["events"])
-    d = workdir("C14")
-    path = os.path.join(d, "traces.ndjson")
-    tlc.write_ndjson(path, traces)
-    res = tlc.run_tlc("ArithTrace", env={"CASES": path}, workers=max(2, NCPU - 2), timeout=3600)
-    rep.add_tlc(res)
-    verdicts = {r["id"]: r for r in res.records if "verdict" in r}
-    if len(verdicts) != len(traces):
-        raise ToolError("ArithTrace returned %d verdicts for %d traces\n%s" % (len(verdicts), len(traces), res.raw_tail))
+    verdicts = tlc.validate_in_chunks("ArithTrace", traces, rep, "C14", chunk=200)
     rep.coverage["traces_validated_against_impl"] = len(traces)
     rep.coverage["events_validated"] = nev
     rep.coverage["distinct_nontrivial"] = nev
